@@ -651,8 +651,10 @@ def _fit_windows(
     windows['range', 0] = center - width / 2
     windows['range', 1] = np.nextafter(center.values + width.value / 2, np.inf)
 
-    windows = _clip_to_data_range(data, windows)
+    # Clip last: clipping first and then moving the edges away from neighboring
+    # estimates can push an edge beyond the data again and invert the window.
     _separate_from_neighbors_in_place(center, windows, fit_parameters)
+    windows = _clip_to_data_range(data, windows)
 
     return windows
 
